@@ -34,6 +34,7 @@ def first_mz_props(F: "bytes", lo: "int", hi: "int", m: "int"):
 def _(fh: "file", start_offset: "opt[int]", maxrange: "int"):
     """the LEAST offset in [start, start + maxrange) with a valid DOS/COFF header pair, else None"""
     requires(implies(start_offset is not None, start_offset >= 0), maxrange >= 0)
+    position_independent(fh, when=start_offset is not None)
     modifies(fh)
     ghost(entry=True, do=[let("F", file_content(fh)),
                           let("s", old(file_pos(fh)) if start_offset is None else start_offset)])
@@ -50,6 +51,7 @@ def _(fh: "file", start_offset: "opt[int]", maxrange: "int"):
 def _(fh: "file", start_offset: "opt[int]", maxrange: "int"):
     """the architecture of the image at the least valid offset ("x64" for Machine 0x8664, "x86" for 0x14c), else None"""
     requires(implies(start_offset is not None, start_offset >= 0), maxrange >= 0)
+    position_independent(fh, when=start_offset is not None)
     modifies(fh)
     ghost(entry=True, do=[let("F", file_content(fh)),
                           let("s", old(file_pos(fh)) if start_offset is None else start_offset)])
